@@ -1134,6 +1134,24 @@ class Interp:
                     acc = self.apply(args[3], [acc, e], unit, unit.loc(n.get("loc")), None) if len(args) == 4 else self.arith("+", acc, e)
                     i += 1
                 return acc
+        if self.cfg.iter_positions and qn == "std::for_each" and len(args) == 3:
+            # summary (trusted): f(*it) for every position of [first, last) in order -- the `more(range, i)` atoms of a range-for
+            rng = None
+            f0, l0 = args[0], args[1]
+            if isinstance(f0, tuple) and f0 and f0[0] == "ev" and isinstance(l0, tuple) and l0 and l0[0] == "ev":
+                e0, e1 = self.path.events[f0[1] - 1], self.path.events[l0[1] - 1]
+                if e0[0].split("<")[0].split("::")[-1] in ("begin", "cbegin") and e1[0].split("<")[0].split("::")[-1] in ("end", "cend") \
+                        and len(e0[1]) == 1 and e0[1] == e1[1]:
+                    rng = e0[1][0]
+            if rng is not None:
+                i = 0
+                while self.decide(("more", rng, i)):
+                    if i >= self.cfg.loop_bound:
+                        self.event("loop-bound", [], unit.loc(n.get("loc")))
+                        raise _Truncated()
+                    self.apply(args[2], [("elem", rng, i)], unit, unit.loc(n.get("loc")), None)
+                    i += 1
+                return args[2]
         if self.cfg.iter_positions and qn in ("std::next", "std::prev") and args:
             k = args[1] if len(args) > 1 else ("k", "1")
             return self.arith("+" if qn == "std::next" else "-", args[0], k)
@@ -1312,6 +1330,12 @@ class Interp:
             if qn == "std::min":
                 return b if self.truth(self.compare("<", b, a)) else a
             return b if self.truth(self.compare("<", a, b)) else a
+        if qn == "std::clamp" and len(args) == 3:
+            # summary (the standard's definition): v < lo ? lo : hi < v ? hi : v
+            v0, lo, hi = args
+            if self.truth(self.compare("<", v0, lo)):
+                return lo
+            return hi if self.truth(self.compare("<", hi, v0)) else v0
         if qn == "fcppt::literal" and args:
             return args[0]
         if qn in ("std::make_pair", "fcppt::tuple::make", "std::make_tuple"):
